@@ -88,7 +88,33 @@ def install_lhs_random():
     def isinstance_ok(obj):
         return obj
 
+    # The selection criteria of lhs() score candidate designs with C code (scipy pdist, np.corrcoef).  The scores are
+    # replaced by ARBITRARY ones: a solver choice per candidate decides whether it beats the best so far.  Which
+    # candidate is returned is thereby arbitrary -- the Latin-hypercube structure must hold for every one of them.
+    state = {'k': 0}
+
+    def _wins():
+        c = core.cur()
+        state['k'] += 1
+        return c is None or c.choice('candidate%d_beats_best_so_far' % state['k'], 2) == 1
+
+    def corrcoef(m, *a, **k):
+        rows = len(m)
+        c = (0.5 ** state['k']) * 0.5 if _wins() else 0.99
+        return np.eye(rows) + c * (np.ones((rows, rows)) - np.eye(rows))
+
+    class _Dist(object):
+        @staticmethod
+        def pdist(h, *a, **k):
+            npts = len(h)
+            d = float(state['k'] + 1) if _wins() else 1e-9
+            return np.full(max(1, npts * (npts - 1) // 2), d)
+
+    class _Spatial(object):
+        distance = _Dist
+
     shim = stubs.Shim(np, random=_Rnd, zeros_like=zeros_like, asarray=stubs.n_asarray, array=stubs.n_array,
-                      round=stubs.n_round, around=stubs.n_round)
-    stubs.install((DOE, 'np', shim))
+                      round=stubs.n_round, around=stubs.n_round, corrcoef=corrcoef)
+    stubs.install((DOE, 'np', shim), (DOE, 'spatial', _Spatial))
+    DOE._symx_scores = state
     return DOE
